@@ -393,6 +393,53 @@ class Monotone(Harness):
         yield 'pass-stays-pass', s_implies(obs['before'] == True, obs['after'] == True)  # noqa: E712
 
 
+class CopiedPolicyEval(SizeEval):
+    """the per-target copy of the configuration (copy.deepcopy of an AuditConf holding the policy, as target_worker_thread makes it) evaluates exactly like the
+    original policy: same verdict and errors for symbolic sizes and both allow_* flags."""
+    ob = 'O10'
+
+    def __init__(self, dh):
+        super().__init__('ssh-rsa', 'ssh-rsa', True, dh, (4, 4))
+        self.name = 'copiedpolicy-%s' % ('dh' if dh else 'hostkey')
+
+    def params(self):
+        return {'dh': self.dh}
+
+    def run(self, M, inp):
+        import copy
+        T = 'ssh-rsa-cert-v01@openssh.com'
+        G = 'diffie-hellman-group-exchange-sha256'
+
+        def build():
+            if self.dh:
+                p = make_policy(M, {'_dh_modulus_sizes': {G: inp['psz']}}, inp['subset'], inp['larger'])
+                kex = make_kex(M, {}, dh={G: inp['ksz']})
+            else:
+                p = make_policy(M, {'_hostkey_sizes': {T: {'hostkey_size': inp['psz'], 'ca_key_type': self.pol_ca, 'ca_key_size': inp['pca']}}}, inp['subset'], inp['larger'])
+                kex = make_kex(M, {}, host_keys={T: (inp['ksz'], self.peer_ca, inp['kca'])})
+            return p, kex
+        p, kex = build()
+        r1 = guarded(p.evaluate, None, kex)
+        p2, kex2 = build()
+        aconf = M.auditconf.AuditConf('', 22)
+        aconf.policy = p2
+        c = guarded(copy.deepcopy, aconf)
+        if isinstance(c, Exc):
+            return {'exc': c}
+        r2 = guarded(c.policy.evaluate, None, kex2)
+        if isinstance(r1, Exc) or isinstance(r2, Exc):
+            return {'exc': r1 if isinstance(r1, Exc) else r2}
+        return {'passed': r1[0], 'errs': errs_view(r1[1]), 'passed_copy': r2[0], 'errs_copy': errs_view(r2[1]), 'orig_errors_after': len(p2._errors)}
+
+    def check(self, inp, obs):
+        if 'exc' in obs:
+            yield 'no-exception', False
+            return
+        yield 'copy-gives-the-same-verdict', obs['passed'] == obs['passed_copy']
+        yield 'copy-gives-the-same-errors', len(obs['errs']) == len(obs['errs_copy']) and all(a[0] == b[0] for a, b in zip(obs['errs'], obs['errs_copy']))
+        yield 'evaluating-the-copy-leaves-the-shared-policy-untouched', obs['orig_errors_after'] == 0
+
+
 def _worker_policy_harness():
     """O10 (semantic): two failing policy audits through two worker tasks that share one configuration report the same errors as one - i.e. every evaluation
     runs on a Policy whose error list starts empty (the assumption under which O1..O9 compare evaluate() with the specification)."""
@@ -476,6 +523,8 @@ def tasks(tier):
             for nopt in ((0, 1) if q else (0, 1, 2)):
                 T.append(TextPolicyEval(subset, larger, nopt))
     T.append(_worker_policy_harness())
+    T.append(CopiedPolicyEval(False))
+    T.append(CopiedPolicyEval(True))
     return T
 
 
@@ -489,6 +538,8 @@ def harness_by_name(name, params):
         return BannerEval(params['n'], params['with_kex'])
     if k == 'textpolicy':
         return TextPolicyEval(params['subset'], params['larger'], params['nopt'])
+    if k == 'copiedpolicy':
+        return CopiedPolicyEval(params['dh'])
     if k == 'workerpolicy':
         return _worker_policy_harness()
     if k == 'monotone':
